@@ -723,6 +723,15 @@ func (fr *Frame) lookupLocal(name string, st *State, at *ssa.BasicBlock) (Val, b
 			}
 		}
 	}
+	// while the clauses of a loop are evaluated, a phi of that loop's header wins (two `range` loops both have a
+	// phi called rangeindex; the blocks of a later loop may already have been visited)
+	if fr.curLoop != nil {
+		for v := range fr.regs {
+			if p, ok := v.(*ssa.Phi); ok && p.Comment == name && p.Block() == fr.curLoop {
+				phi = p
+			}
+		}
+	}
 	if phi != nil {
 		return fr.regs[phi], true
 	}
